@@ -75,7 +75,9 @@ def _check_numbers(i):
 def _trees(tier):
     import sympy
     L = _leaves()
-    un = [sympy.cos, sympy.sin, sympy.exp, sympy.tan, sympy.sqrt, lambda e: -e, lambda e: 1 / e, lambda e: e ** 2, lambda e: e ** sympy.Rational(1, 2), lambda e: e ** -2]
+    un = [sympy.cos, sympy.sin, sympy.exp, sympy.tan, sympy.sqrt, lambda e: -e, lambda e: 1 / e, lambda e: e ** 2, lambda e: e ** sympy.Rational(1, 2), lambda e: e ** -2,
+          lambda e: e ** sympy.Rational(3, 2), lambda e: e ** sympy.Rational(-1, 2), lambda e: e ** sympy.Rational(5, 2), lambda e: e ** sympy.Rational(1, 3), lambda e: e ** 1.5,
+          lambda e: e ** sympy.Float(0.5), lambda e: e ** -1.0, lambda e: e ** sympy.Rational(-3, 2)]
     bi = [lambda a, b: a + b, lambda a, b: a - b, lambda a, b: a * b, lambda a, b: a / b, lambda a, b: a ** b, lambda a, b: sympy.Mul(1 / a, b, evaluate=True),
           lambda a, b: sympy.Add(-a, b, evaluate=True)]
     d1 = list(L)
@@ -210,6 +212,15 @@ def _check_natkey(prefix):
         return False, "two digit groups are not ordered lexicographically by their numeric values"
     if sorted(sh, key=natural_key_revlex) != sorted(two, key=lambda s: list(reversed(natural_key(s)))):
         return False, "natural_key_revlex is not the reversed key"
+    # digit groups are integers whatever separates them ('.', '-', letters): theta_1.10 comes after theta_1.2 and theta_1.9, and differs from theta_1.1
+    for sep in (".", "-", "x", "_"):
+        grp = [Symbol(f"{prefix}{i}{sep}{j}") for i in (1, 2, 10) for j in (1, 2, 9, 10, 11, 100)]
+        sh2 = list(grp)
+        rng.shuffle(sh2)
+        if [s_.name for s_ in sorted(sh2, key=natural_key)] != [s_.name for s_ in grp]:
+            return False, f"two digit groups separated by {sep!r} are not ordered by their integer values: {[s_.name for s_ in sorted(sh2, key=natural_key)][:8]}..."
+        if natural_key(Symbol(f"{prefix}1{sep}10")) == natural_key(Symbol(f"{prefix}1{sep}1")):
+            return False, f"{prefix}1{sep}10 and {prefix}1{sep}1 have the same key"
     return True, "ok"
 
 
